@@ -5,7 +5,9 @@ from . import c17
 
 ID = "C13"
 THEOREMS = ["C13_modulation_params", "C13_rf_frequency", "C13_packet_params", "C13_irq_masks", "C13_errata_values", "C13_fixed_commands",
-            "C13_sx1276_modem_config_fields", "C13_sx1276_frf_bytes"]
+            "C13_sx1276_modem_config_fields", "C13_sx1276_frf_bytes",
+            "C13_sx126x_seq_modulation", "C13_sx126x_seq_packet", "C13_sx126x_seq_channel", "C13_sx126x_seq_tx_power", "C13_sx126x_seq_rx",
+            "C13_sx126x_seq_cad", "C13_sx126x_seq_init", "C13_sx126x_seq_simple"]
 BW_HZ = c17.BW_HZ
 H6 = "%s chip=%s tcxo=- dcdc=0 rxboost=%d txboost=0 fault=- regs=%s reads=%s fill=0 buf=-"
 
